@@ -34,7 +34,7 @@ use itertools::Itertools;
 use std::collections::{HashMap, HashSet};
 use std::ops::Deref;
 use std::path::PathBuf;
-use std::sync::{Arc, Mutex};
+use std::sync::Arc;
 
 /// How deep macro invocations may be nested
 const MAX_MACRO_DEPTH: usize = 64;
@@ -1429,7 +1429,7 @@ impl CodegenContext {
         function: F,
     ) {
         self.functions
-            .insert(name.into(), Arc::new(Mutex::new(function)));
+            .insert(name.into(), Arc::new(function));
     }
 
     fn register_default_fns(&mut self) {
@@ -1440,7 +1440,7 @@ impl CodegenContext {
             }
 
             fn apply(
-                &mut self,
+                &self,
                 ctx: &Evaluator,
                 args: &[&Located<Expression>],
             ) -> EvaluationResult<Option<SymbolData>> {
